@@ -877,11 +877,11 @@ fn join_chunks(chunks: Vec<Chunk>, options: &FormattingOptions) -> String {
                     }
                 } else {
                     // If the line only consists of comments, move them to the 'code' column
-                    if line.len() > options.whitespace.label_margin + options.whitespace.code_margin
-                    {
-                        let (label_code, comment) = line.split_at(
-                            options.whitespace.label_margin + options.whitespace.code_margin,
-                        );
+                    // (the margins count characters, not bytes: the line may contain non-ASCII text)
+                    let comment_column =
+                        options.whitespace.label_margin + options.whitespace.code_margin;
+                    if let Some((comment_idx, _)) = line.char_indices().nth(comment_column) {
+                        let (label_code, comment) = line.split_at(comment_idx);
                         if label_code.trim().is_empty() {
                             line = format!(
                                 "{:<width$}{}",
